@@ -51,7 +51,8 @@ impl ShaGenerator {
 
         let hasher = match current_state {
             Some(jh) => jh.await??,
-            None => return Ok(MerkleHash::default()),
+            // Nothing was hashed (empty file): the result is the SHA-256 of the empty string.
+            None => Sha256::default(),
         };
 
         let sha256 = hasher.finalize();
